@@ -87,6 +87,7 @@ fn run_gate(ctx: &mut Ctx, opts: &[&str], depth: usize) {
         let complaints = oracle.judge(ctx, &cfg, st);
         ctx.out.traces_validated += 1;
         rowmodel::report(ctx, "C10", "GATE", &cfg, &actions, st, complaints, json!({"depth": depth}));
+        crate::engine::explore::leaf_conformance(ctx, "C10/GATE", "GATE", &cfg, &[], &actions, st, depth, json!({"depth": depth}));
     });
     ctx.bound(&format!("GATE [{}]", cfg.label()), format!("depth {depth}, {} actions", actions.len()));
 }
@@ -365,6 +366,9 @@ fn replay(ctx: &mut Ctx, case: &Value) {
     let oracle = RowOracle { lookup: Lookup::new(), relaxed: o.contains(&"-R"), probe_idempotence: false, prop: "C10" };
     let model = Model { cfg: &cfg, actions: &actions, depth, init: vec![], aux0: Slots::default() };
     replay_path(ctx, &model, &path, rowmodel::aux_step, |ctx, st| {
+        if crate::engine::explore::replay_leaf_conformance(ctx, case, "C10/GATE", &cfg, &[], &actions, st) {
+            return;
+        }
         let complaints = oracle.judge(ctx, &cfg, st);
         for (s, m) in &complaints {
             crate::run::say(&format!("  oracle [{s}]: {m}"));
